@@ -714,3 +714,20 @@ Proof.
   - intros n. apply (linear_bound sk B Emain H).
   - apply (halts_final sk B Emain H toks orc Hna).
 Qed.
+
+(* The hypothesis is satisfiable by a non-trivial program: eof kind 1;
+   main:  0: TestCur {eof} ? 4 : 1     1: Call skip -> 2     2: Goto 0      4: Ret     (for !EOF { skip() })
+   skip:  0: Next -> 1                 1: Ret                                           (entered on a non-EOF token) *)
+Example tiny : prog :=
+  mkProg
+    [ mkFunc (mkSpec 4 (Some 1) (Some 4) (FNotIn 0))
+        [ mkNode (ITestCur 2 3 1) (mkAnn (Some 0) (FNotIn 0) (Some 3) (FNotIn 0) None);
+          mkNode (ICall 1 2)      (mkAnn (Some 1) (FNotIn 2) (Some 4) (FNotIn 2) None);
+          mkNode (IGoto 0)        (mkAnn None (FIn 0) (Some 2) (FNotIn 0) None);
+          mkNode IRet             (mkAnn (Some 1) (FIn 2) (Some 4) (FIn 2) None) ];
+      mkFunc (mkSpec 2 None (Some 1) (FNotIn 2))
+        [ mkNode (INext 1) (mkAnn (Some 0) (FNotIn 2) None (FIn 0) None);
+          mkNode IRet      (mkAnn None (FIn 0) (Some 1) (FNotIn 0) None) ] ]
+    0 1.
+Example tiny_ok : check_prog tiny 8 4 = true /\ no_assume tiny = true.
+Proof. vm_compute. split; reflexivity. Qed.
